@@ -33,6 +33,7 @@ use std::{
     fs::File,
     io::Error as IOError,
     os::unix::{
+        ffi::OsStrExt,
         fs::MetadataExt,
         io::{AsFd, BorrowedFd, OwnedFd},
     },
@@ -356,8 +357,21 @@ impl ProcfsHandle {
         subpath: P,
         oflags: F,
     ) -> Result<File, Error> {
+        self.open_follow_inner(base, subpath.as_ref(), oflags.into(), 0)
+    }
+
+    fn open_follow_inner<P: AsRef<Path>>(
+        &self,
+        base: ProcfsBase,
+        subpath: P,
+        oflags: OpenFlags,
+        depth: usize,
+    ) -> Result<File, Error> {
+        // More than enough for procfs (self -> <pid>, net -> self/net, ...).
+        const MAX_SYMLINK_FOLLOWS: usize = 8;
+
         let subpath = subpath.as_ref();
-        let mut oflags = oflags.into();
+        let mut oflags = oflags;
 
         // The final open of a magic-link does not go through the resolver, so
         // the creation flags it refuses have to be refused here as well --
@@ -384,8 +398,34 @@ impl ProcfsHandle {
         // NOTE: There is technically a race here, but it relies the target path
         //       being a magic-link and then another thing being mounted on top.
         //       This is the same race as below.
-        if self.readlink(base, subpath).is_err() {
-            return self.open(base, subpath, oflags).map(File::from);
+        let link_target = match self.readlink(base, subpath) {
+            Ok(target) => target,
+            Err(_) => return self.open(base, subpath, oflags).map(File::from),
+        };
+
+        // Ordinary procfs symlinks (self, thread-self, net, mounts, ...) have a
+        // relative target inside procfs. Following them with a plain openat(2)
+        // would silently cross any mount placed on top of their target, so
+        // splice the target into the path and look that up instead -- the
+        // resolver refuses mount crossings and magic-links at every step.
+        // Only real magic-links (whose readlink is an absolute path or an
+        // "fstype:[ino]" pseudo-path) need the special handling below.
+        let target_bytes = link_target.as_os_str().as_bytes();
+        let is_magiclink =
+            link_target.is_absolute() || target_bytes.windows(2).any(|w| w == b":[");
+        if !is_magiclink {
+            // The caller explicitly asked not to follow the link.
+            if oflags.contains(OpenFlags::O_NOFOLLOW) {
+                return self.open(base, subpath, oflags).map(File::from);
+            }
+            if depth >= MAX_SYMLINK_FOLLOWS {
+                Err(ErrorImpl::OsError {
+                    operation: "follow procfs symlink".into(),
+                    source: IOError::from_raw_os_error(libc::ELOOP),
+                })?
+            }
+            let (parent, _) = utils::path_split(subpath)?;
+            return self.open_follow_inner(base, parent.join(link_target), oflags, depth + 1);
         }
 
         // Get a no-follow handle to the parent of the magic-link.
